@@ -31,7 +31,12 @@ import c12_members  # noqa: E402
 import c12_ast  # noqa: E402
 from cxx2lean import Refuse  # noqa: E402
 
-TYPES = list(K11.SIMPLE) + ["imep", "team", "pop", "summ", "lam"]
+TYPES = list(K11.SIMPLE) + ["imep", "team", "pop", "summ", "lam", "cachet"]
+# `cachet`: cache::load on a populated cache.  Not in the property's list (evaluator_proxy::load documents "could be
+# changed"): the flow analysis proves that a failing cache::load can only have modified `table_`
+# (`weak_loads_dirty`), and that is what is checked here; verdicts are compared with the model's.
+SOURCE_TYPE = {"cachet": "cache"}
+WEAK_MAY_CHANGE = {"cachet": "vita::cache::table_"}
 # objects per type, max stream length for exhaustive prefixes, token mutations per object: (quick, thorough)
 BUDGET = {
     "hash": ((100, 600, 120), (800, 6000, 1000)),
@@ -46,6 +51,7 @@ BUDGET = {
     "pop": ((40, 600, 200), (300, 6000, 1200)),
     "summ": ((80, 600, 160), (600, 6000, 1000)),
     "lam": ((60, 600, 200), (480, 6000, 1200)),
+    "cachet": ((60, 400, 120), (480, 4000, 1000)),
 }
 FAILISH = ("fail", "exc:bad_alloc", "exc:length_error", "null", "exc:data_format")
 
@@ -109,8 +115,171 @@ def translate_loads_names(gen):
     return re.findall(r'^\s+"(vita::[^"]+)"', open(gen).read(), re.M)
 
 
-def mutations(rng, data, max_exh, n_tok):
-    """[(kind, bytes)] for one valid serialization."""
+# ---- the damage model ---------------------------------------------------------------------------------
+# The property quantifies over every prefix and every single-token substitution / deletion that keeps numbers
+# within their digit count.  Per valid serialization:
+#   prefix            every byte offset (all up to the tier's bound, sampled beyond)
+# and per token (all tokens of short streams; sampled otherwise, but the STRUCTURAL tokens of the record -
+# counts, sizes, layer headers, ages, starting locus - are always damaged, and so is a sample of opcodes):
+#   delete            the token is removed
+#   word              replaced by a non-numeric word
+#   digits            same digit count, 1-3 digits changed        zeros / nines   all digits 0 / 9 (count 0, huge)
+#   sign / plus       a '-' added or removed / a '+' added
+#   swap              exchanged with the NEXT token (adjacent fields, often of different type)
+#   donor:same        replaced by another token of the same record (a float where an integer is expected …)
+#   donor:other       replaced by a token of ANOTHER object of the same type
+#   opcode:*          (streams of programs) the opcode of another VALID symbol: other arity (the rest of the
+#                     record is misaligned), parametric / non parametric, other category, same shape, unknown
+
+
+def tokens_of(data):
+    return [(m.start(), m.end()) for m in re.finditer(rb"\S+", data)]
+
+
+def parse_symtab(ctx):
+    """'nsym (opcode hasPar arity)*' -> {opcode: (hasPar, arity)}"""
+    t = [int(x) for x in ctx.split()] if ctx else []
+    if not t:
+        return {}
+    return {t[1 + 3 * i]: (t[2 + 3 * i], t[3 + 3 * i]) for i in range(t[0])}
+
+
+class Roles:
+    """roles of the tokens of a valid serialization (best effort: anything that does not parse stays '?')"""
+
+    def __init__(self, data, toks, symtab):
+        self.data, self.toks, self.symtab = data, toks, symtab
+        self.role = ["?"] * len(toks)
+        self.i = 0
+
+    def val(self, i):
+        try:
+            return int(self.data[self.toks[i][0]:self.toks[i][1]])
+        except (ValueError, IndexError):
+            return None
+
+    def take(self, role):
+        if self.i >= len(self.toks):
+            raise IndexError
+        self.role[self.i] = role
+        v = self.val(self.i)
+        self.i += 1
+        return v
+
+    def imep(self):
+        self.take("age")
+        rows = self.take("rows")
+        cols = self.take("cols")
+        for _ in range((rows or 0) * (cols or 0)):
+            op = self.take("opcode")
+            hp, ar = self.symtab.get(op, (0, 0))
+            if hp:
+                self.take("par")
+            for _ in range(ar):
+                self.take("arg")
+        if rows:
+            self.take("best_index")
+            self.take("best_category")
+
+    def team(self):
+        n = self.take("count")
+        for _ in range(n or 0):
+            self.imep()
+
+    def pop(self):
+        nl = self.take("layers")
+        for _ in range(nl or 0):
+            self.take("allowed")
+            ne = self.take("nelem")
+            for _ in range(ne or 0):
+                self.imep()
+
+    def summ(self):
+        known = self.take("known")
+        if known:
+            self.imep()
+            # the fitness is the rest of a line, then the accuracy: recognised from the END of the record
+        n = len(self.toks)
+        for k, r in enumerate(("elapsed", "mutations", "crossovers", "gen", "last_imp")):
+            if n - 5 + k >= self.i:
+                self.role[n - 5 + k] = r
+        if known and n - 6 >= self.i:
+            self.role[n - 6] = "accuracy"
+            for j in range(self.i, n - 6):
+                self.role[j] = "fitness"
+
+
+def roles_of(typ, data, toks, symtab):
+    r = Roles(data, toks, symtab)
+    try:
+        {"imep": r.imep, "team": r.team, "pop": r.pop, "summ": r.summ}[typ]()
+    except (IndexError, KeyError, TypeError):
+        pass
+    return r.role
+
+
+STRUCTURAL = {"rows", "cols", "count", "layers", "allowed", "nelem", "best_index", "best_category", "known", "age",
+              "accuracy", "elapsed", "mutations", "crossovers", "gen", "last_imp"}
+
+
+def opcode_substitutes(op, symtab, cats):
+    """[(kind, opcode)]: a VALID opcode of another symbol, by what differs"""
+    out = {}
+    hp, ar = symtab.get(op, (0, 0))
+    for o, (h2, a2) in sorted(symtab.items()):
+        if o == op:
+            continue
+        if a2 != ar:
+            out.setdefault("opcode:other-arity", o)
+        if h2 != hp:
+            out.setdefault("opcode:other-parametric", o)
+        if cats and cats.get(o) != cats.get(op):
+            out.setdefault("opcode:other-category", o)
+        if a2 == ar and h2 == hp:
+            out.setdefault("opcode:same-shape", o)
+    out["opcode:unknown"] = max(symtab) + 1 if symtab else 99
+    return sorted(out.items())
+
+
+def token_damage(rng, data, toks, ti, donor):
+    """[(kind, bytes)]: every single-token damage of token `ti`"""
+    out = []
+    a, b = toks[ti]
+    tok = data[a:b]
+
+    def put(kind, new):
+        if new != tok:
+            out.append((kind, data[:a] + new + data[b:]))
+    out.append(("delete", data[:a] + data[b:]))
+    put("word", b"x")
+    t2 = bytearray(tok)
+    dig = [i for i, c in enumerate(t2) if 48 <= c <= 57]
+    if dig:
+        for _ in range(1 + rng.below(3)):
+            i = dig[rng.below(len(dig))]
+            t2[i] = 48 + rng.below(10)
+        put("digits", bytes(t2))
+        put("zeros", bytes(48 if 48 <= c <= 57 else c for c in tok))
+        put("nines", bytes(57 if 48 <= c <= 57 else c for c in tok))      # the largest value with this digit count
+    if tok[:1] == b"-":
+        put("sign", tok[1:])
+    elif tok[:1].isdigit():
+        put("sign", b"-" + tok)
+        put("plus", b"+" + tok)
+    if ti + 1 < len(toks):
+        c, d = toks[ti + 1]
+        if data[c:d] != tok:
+            out.append(("swap", data[:a] + data[c:d] + data[b:c] + tok + data[d:]))
+    if len(toks) > 1:
+        c, d = toks[rng.below(len(toks))]
+        put("donor:same", data[c:d])
+    if donor:
+        put("donor:other", donor[rng.below(len(donor))])
+    return out
+
+
+def mutations(rng, data, max_exh, n_tok, typ="", symtab=None, cats=None, donor=None):
+    """[(kind, bytes, role)] for one valid serialization."""
     out = []
     L = len(data)
     if L <= max_exh:
@@ -118,30 +287,34 @@ def mutations(rng, data, max_exh, n_tok):
     else:
         offs = sorted({rng.below(L) for _ in range(max_exh)} | {0, 1, L - 1, L - 2})
     for k in offs:
-        out.append(("prefix", data[:k]))
-    toks = [(m.start(), m.end()) for m in re.finditer(rb"\S+", data)]
-    if toks:
-        picks = range(len(toks)) if len(toks) * 4 <= n_tok else [rng.below(len(toks)) for _ in range(n_tok // 4)]
-        for ti in picks:
+        out.append(("prefix", data[:k], "-"))
+    toks = tokens_of(data)
+    if not toks:
+        return out
+    roles = roles_of(typ, data, toks, symtab or {}) if typ in ("imep", "team", "pop", "summ") else ["?"] * len(toks)
+    per = 9                                     # about that many damaged streams per token
+    if len(toks) * per <= 2 * n_tok:
+        picks = list(range(len(toks)))
+    else:
+        structural = [i for i, r in enumerate(roles) if r in STRUCTURAL]
+        top = structural[:6] + structural[-4:]                       # the record's own header and trailer
+        rest = [i for i in structural if i not in top]
+        nested = [rest[rng.below(len(rest))] for _ in range(min(len(rest), n_tok // (2 * per)))] if rest else []
+        rnd = [rng.below(len(toks)) for _ in range(n_tok // per)]
+        picks = sorted(set(top + nested + rnd))
+    for ti in picks:
+        for kind, bts in token_damage(rng, data, toks, ti, donor):
+            out.append((kind, bts, roles[ti]))
+    ops = [i for i, r in enumerate(roles) if r == "opcode"]
+    if ops and symtab:
+        for ti in sorted({ops[rng.below(len(ops))] for _ in range(max(1, n_tok // 40))}):
             a, b = toks[ti]
-            tok = data[a:b]
-            out.append(("delete", data[:a] + data[b:]))
-            out.append(("word", data[:a] + b"x" + data[b:]))
-            # same digit count, other digits
-            t2 = bytearray(tok)
-            dig = [i for i, c in enumerate(t2) if 48 <= c <= 57]
-            if dig:
-                for _ in range(1 + rng.below(3)):
-                    i = dig[rng.below(len(dig))]
-                    t2[i] = 48 + rng.below(10)
-                if rng.below(3) == 0:
-                    for i in dig:
-                        t2[i] = 57          # all nines: the largest value with this digit count
-                out.append(("digits", data[:a] + bytes(t2) + data[b:]))
-            if tok[:1] == b"-":
-                out.append(("sign", data[:a] + tok[1:] + data[b:]))
-            elif tok[:1].isdigit():
-                out.append(("sign", data[:a] + b"-" + tok + data[b:]))
+            try:
+                op = int(data[a:b])
+            except ValueError:
+                continue
+            for kind, o in opcode_substitutes(op, symtab, cats):
+                out.append((kind, data[:a] + str(o).encode() + data[b:], "opcode"))
     return out
 
 
@@ -228,12 +401,17 @@ def run(chk, replay=None):
                        "compiler": msg[-3000:]}, no_input=True)
         return chk.finish(level="proof", checker_cmd="g++ harness/c12_load.cc", rule="(harness does not build)",
                           trusted=[])
+    try:
+        a_, _d = C.run_lines(exe, ["symcats"], timeout=300)
+        state_cats = {int(x.split(":")[0]): int(x.split(":")[1]) for x in a_[0].split()[1:]} if a_ else {}
+    except (ValueError, IndexError):
+        state_cats = {}
     member_stats = {}      # (tag, rec, fld) -> [visits, nonzero]
     features = {}
     tier_i = 0 if chk.tier == "quick" else 1
 
     # ---- requests, one batch per type (bounded memory in the thorough tier) ----------------------
-    state = {"ndis": 0, "requests": 0}
+    state = {"ndis": 0, "requests": 0, "cats": state_cats}
     batches = []       # lists of (type, kind, tseed, hex, source, ctx)
     if replay:
         r = json.load(open(replay))["replay"]
@@ -257,18 +435,25 @@ def run(chk, replay=None):
         """yields lists of requests, about CHUNK at a time"""
         reqs = []
         nobj, max_exh, n_tok = BUDGET[typ][tier_i]
-        rc, objs, se = K11.gen_objects(ser, chk.seed, nobj, typ)
+        state["donor"] = None
+        rc, objs, se = K11.gen_objects(ser, chk.seed, nobj, SOURCE_TYPE.get(typ, typ))
         lap("gen_objects")
         for i, o in enumerate(objs):
             if o["verdict"] != "ok" or o["hex"] == "-":
                 continue      # only *valid* serializations are damaged (C11 reports the others)
             data = bytes.fromhex(o["hex"])
             chk.count("source_objects:" + typ)
-            # models: no target, the second field selects the problem (symbol set) of the model
-            tsf = (lambda: o["tags"].get("prob", 0)) if typ == "lam" else (lambda: rng.next() % 1000003)
+            symtab = parse_symtab(o.get("ctx", "")) if typ in K11.NEEDS_CTX else None
+            # models: no target, the second field selects the problem (symbol set) of the model; otherwise the seed
+            # of the target's history: a few targets per source object (the harness keeps the last ones built)
+            tbase = rng.next() % 1000003
+            tsf = (lambda: o["tags"].get("prob", 0)) if typ == "lam" else (lambda: tbase + rng.below(6))
             reqs.append((typ, "intact", tsf(), o["hex"], i, o.get("ctx", "")))
-            for kind, b in mutations(rng, data, max_exh, n_tok):
+            for kind, b, role in mutations(rng, data, max_exh, n_tok, typ, symtab, state.get("cats"), state.get("donor")):
                 reqs.append((typ, kind, tsf(), hexs(b), i, o.get("ctx", "")))
+                if role not in ("-", "?"):
+                    chk.count(f"role:{role}:{kind}")
+            state["donor"] = [data[a:b] for a, b in tokens_of(data)][:400] or state.get("donor")
             if len(reqs) >= CHUNK:
                 yield reqs
                 reqs = []
@@ -286,6 +471,8 @@ def run(chk, replay=None):
                 _, ol, _ = K11.gen_objects(ser, 1, 60, "lam")
                 tabs["lam"] = {o["tags"].get("prob"): o["ctx"] for o in ol}
             return tabs["lam"].get(ts, "")
+        if t == "cachet":
+            return "4"          # bits of the model's fresh cache: the verdict does not depend on them
         if t in K11.NEEDS_CTX:
             if "sym" not in tabs:
                 _, o1, _ = K11.gen_objects(ser, 1, 1, "imep")
@@ -297,8 +484,8 @@ def run(chk, replay=None):
         lines = [f"ld {t} {ts} {hx}" for t, _, ts, hx, _, _ in reqs]
         state["requests"] += len(lines)
         shards = max(1, min(8, len(lines) // 3000))
-        mlines = [(f"resave lam {r[3]} {ctx_of(r)}" if r[0] == "lam" else f"load {r[0]} {r[3]} {ctx_of(r)}")
-                  for r in reqs]
+        mlines = [(f"resave lam {r[3]} {ctx_of(r)}" if r[0] == "lam" else
+                   f"load {SOURCE_TYPE.get(r[0], r[0])} {r[3]} {ctx_of(r)}") for r in reqs]
 
         def cpp(idx):
             a, deaths = C.run_lines(exe, lines[idx::shards] + ["stats"], timeout=3000)
@@ -372,6 +559,7 @@ def run(chk, replay=None):
             ca = cpp_ans[g] or "skipped"
             chk.seen((typ, hx), nontrivial=True)
             chk.count(f"{typ}:{kind}")
+            chk.count("damage:" + kind)
             rep = {"line": lines[g], "mutation": kind, "bytes": bytes.fromhex(hx).decode("latin1")[:600] if hx != "-" else ""}
             tags = {"type": typ, "mutation": kind}
             if ca.startswith("died"):
@@ -388,7 +576,11 @@ def run(chk, replay=None):
             c = ca.split()
             verdict, same, after = c[0], c[1], " ".join(c[2:])
             chk.count("cpp:" + verdict)
-            if verdict != "ok" and same != "same":
+            if verdict != "ok" and same != "same" and typ in WEAK_MAY_CHANGE and \
+                    where.split(" -> ")[0] == WEAK_MAY_CHANGE[typ]:
+                # documented "could be changed", and only in the member the flow analysis allows
+                chk.count(f"{typ}:failed-load-changed-{WEAK_MAY_CHANGE[typ]}")
+            elif verdict != "ok" and same != "same":
                 chk.violation(f"{typ}::load reported failure ({verdict}) on a damaged stream ({kind}) but the target "
                               f"changed (first difference of the member-by-member snapshot: {where or '?'}); "
                               f"target after = {after[:300]}", dict(rep, cpp=ca[:600], changed_member=where),
@@ -405,7 +597,7 @@ def run(chk, replay=None):
                 m_ok = ma.startswith("ok ")
                 c_ok = verdict == "ok"
                 agree = (m_ok == c_ok)
-                if agree and m_ok:
+                if agree and m_ok and typ not in WEAK_MAY_CHANGE:
                     # plain types: the loaded object; models: the bytes of the reloaded model saved again
                     agree = ma[3:].split(" | ")[0].strip() == after.strip()
                 if not agree:
